@@ -54,8 +54,8 @@ theorem scb_lks (l : FLink F) (now : Nat) (fn : List Nat) :
   dsimp only
   split <;> (try split) <;> (try split) <;> rfl
 
-/-- A queued packet followed by an optional flush (send failure ⇒ `mark_for_recovery`). -/
 omit [Scalar F] in
+/-- A queued packet followed by an optional flush (send failure ⇒ `mark_for_recovery`). -/
 theorem queue_flush_frame (l : FLink F) (pkt : Sys.Bytes) (seq : Option Nat) (now : Nat) (fn : List Nat) :
     LksFrame l (l.queueDataPacket pkt seq now).1 ∧
     LksFrame l (sendConnectionBatch (l.queueDataPacket pkt seq now).1 now fn).1 ∧
